@@ -54,6 +54,9 @@ func gen(g *mon.Gen) {
 	for _, v := range cubeVals {
 		g.Emit(&Case{Kind: "cube", Lo: v, Seed: rng.Int63()})
 	}
+	for i := 0; i < g.Pick(8, 200); i++ {
+		g.Emit(&Case{Kind: "crc-twin", Seed: rng.Int63()})
+	}
 	for fr := 0; fr < 2; fr++ {
 		for _, fc := range []uint8{1, 2, 3, 4, 15, 16} {
 			max := map[uint8]int{1: 2000, 2: 2000, 3: 125, 4: 125, 15: 1968, 16: 123}[fc]
@@ -339,6 +342,47 @@ func runCube(c *Case, r *mon.Rec) {
 	r.CoverN("cube", "frames", int64(n))
 }
 
+// runTwin: two different legal RTU requests of the same length whose CRC-16 is the same (for a given 8-byte frame about
+// one write-single-register value in 65536 collides; found by sweeping the value). Parsed one right after the other
+// through the CRC entry point, each decodes to itself: a checksum does not identify a frame.
+func runTwin(c *Case, r *mon.Rec) {
+	rng := rand.New(rand.NewSource(c.Seed))
+	unit := libx.U8(rng)
+	qa, err := packet.NewReadHoldingRegistersRequestRTU(unit, libx.U16(rng), uint16(1+rng.Intn(125)))
+	if err != nil {
+		return
+	}
+	wa := qa.Bytes()
+	addr := libx.U16(rng)
+	var twins []packet.Request
+	for v := 0; v < 65536 && len(twins) < 3; v++ {
+		qb, err := packet.NewWriteSingleRegisterRequestRTU(unit, addr, []byte{byte(v >> 8), byte(v)})
+		if err != nil {
+			continue
+		}
+		if wb := qb.Bytes(); wb[6] == wa[6] && wb[7] == wa[7] {
+			twins = append(twins, qb)
+		}
+	}
+	r.Eval(1)
+	r.CoverN("crc-twin", "pairs-found", int64(len(twins)))
+	for _, qb := range twins {
+		wb := qb.Bytes()
+		for _, order := range [][2][]byte{{wa, wb}, {wb, wa}} {
+			for k, w := range order {
+				v, perr := packet.ParseRTURequestWithCRC(append([]byte{}, w...))
+				r.Eval(1)
+				if perr != nil {
+					r.Violate(c, "refuses-legal", mon.Attrs{"entry": "ParseRTURequestWithCRC", "fc": int(w[1]), "cube": "crc-twin"}, fmt.Sprintf("legal request % x (parsed right after % x, which has the same CRC) refused: %v", w, order[1-k], perr))
+				} else if !bytes.Equal(v.Bytes(), w) {
+					r.Violate(c, "decoded-differs", mon.Attrs{"entry": "ParseRTURequestWithCRC", "fc": int(w[1]), "framing": "rtu", "twin": true}, fmt.Sprintf("request % x parsed right after % x (same length, same CRC) decodes to %+v, which encodes as % x", w, order[1-k], v, v.Bytes()))
+				}
+			}
+		}
+		r.Distinct(mon.Mix(0x7717, uint64(c.Seed), uint64(wb[4])<<8|uint64(wb[5])))
+	}
+}
+
 func run(ci any, r *mon.Rec) {
 	c := ci.(*Case)
 	defer func() {
@@ -349,6 +393,10 @@ func run(ci any, r *mon.Rec) {
 	}()
 	if c.Kind == "cube" {
 		runCube(c, r)
+		return
+	}
+	if c.Kind == "crc-twin" {
+		runTwin(c, r)
 		return
 	}
 	fr := specref.Framing(c.Framing)
